@@ -107,8 +107,11 @@ fn main() {
                 .ok()
                 .and_then(|s| s.parse().ok())
                 .unwrap_or(20.0);
-            if id != "C15" {
-                spawn_watchdog(out.clone(), limit);
+            // C15 runs many threads and long ranges per case: its budget per case is larger; its own logical
+            // deadlock / livelock criteria fire much earlier for calls made by the monitor itself, this one also
+            // covers calls made by the fault injection
+            if ctx.build != "miri" {
+                spawn_watchdog(out.clone(), if id == "C15" { limit * 20.0 } else { limit });
             }
             let t0 = Instant::now();
             let threads: u64 = arg(&args, "--threads").and_then(|s| s.parse().ok()).unwrap_or(1);
